@@ -52,6 +52,8 @@ type runOpts struct {
 	noCliques       bool    // skip AllMaximalCliques (too many cliques)
 	extraOrders     [][]int // further GreedyColor orders
 	extraOrderNames []string
+	nested          int // views of views added to the representations (reprs.go)
+	variants        int // representation variants / struct values / caller-implemented Graph added
 }
 
 // Suppression of repeated reports: only the FIRST witness of each (API, kind)
@@ -68,6 +70,7 @@ type judge struct {
 	rep    string
 	repHow string // how the representation was built
 	repV   []int  // vertex list of the induced view
+	reads  string // how the observers of the value differ from the model ("" = they agree)
 	dead   bool   // a violation was raised on this (case, representation, API group)
 }
 
@@ -100,6 +103,9 @@ func (j *judge) detail(extra map[string]interface{}) map[string]interface{} {
 	if j.repV != nil {
 		d["view_vertices"] = j.repV
 	}
+	if j.reads != "" {
+		d["observers_of_the_value_vs_model"] = j.reads
+	}
 	for k, v := range extra {
 		d[k] = v
 	}
@@ -130,10 +136,14 @@ func (j *judge) panicked(api string, witnessExtra string, extra map[string]inter
 // representations
 
 type repr struct {
-	name string
-	how  string
-	V    []int
-	h    graph.Graph
+	name    string
+	how     string
+	V       []int
+	h       graph.Graph
+	filled  bool          // a struct filled by the harness in the plain way: must read back as the model
+	user    *rg.UserGraph // the caller-implemented value (its stored lists are compared with the model afterwards)
+	further bool          // one of the further representations of reprs.go
+	poly    string        // "dense" / "sparse": an EditableGraph that gets ChromaticPolynomial under the options of that representation
 }
 
 // observed state of a graph value read through the interface.
@@ -223,8 +233,8 @@ func buildReprs(c *engine.Ctx, cs *graphCase, r *engine.Rng, only map[string]boo
 	n := g.N
 	key := "build-representation|" + cs.keyID()
 	out := []repr{
-		{name: "dense", how: "rg.Dense()", h: g.Dense()},
-		{name: "sparse", how: "rg.Sparse()", h: g.Sparse()},
+		{name: "dense", how: "rg.Dense()", h: g.Dense(), filled: true, poly: "dense"},
+		{name: "sparse", how: "rg.Sparse()", h: g.Sparse(), filled: true, poly: "sparse"},
 	}
 	if only != nil {
 		var keep []repr
@@ -341,55 +351,103 @@ func runCase(c *engine.Ctx, cs *graphCase, opt runOpts) {
 		if c.Stopped() {
 			return
 		}
-		before, why := observe(c, cs, rp)
-		if why == "" {
-			why = before.isModel(g)
+		judgeRepr(c, cs, rp, opt, orders, orderNames)
+	}
+	// further representations of the same graph (reprs.go): views of views,
+	// representation variants, struct values, a caller-implemented Graph.
+	// Their generator is drawn last, so the cases above do not depend on them.
+	if opt.nested > 0 || opt.variants > 0 {
+		er := engine.NewRng(opt.rng.U64())
+		for _, rp := range extraReprs(c, cs, er, opt.nested, opt.variants) {
+			if c.Stopped() {
+				return
+			}
+			rp.further = true
+			judgeRepr(c, cs, rp, opt, orders, orderNames)
 		}
-		if why != "" {
-			// the value is not a representation of this graph: not C09's case (C05/C06)
+	}
+}
+
+// judgeRepr: all functions on one representation of the case.
+func judgeRepr(c *engine.Ctx, cs *graphCase, rp repr, opt runOpts, orders [][]int, orderNames []string) {
+	g := cs.g
+	n := g.N
+	before, why := observe(c, cs, rp)
+	if why == "" {
+		why = before.isModel(g)
+	}
+	reads := ""
+	if why != "" {
+		c.Obs("rep_reads_unlike_model:"+rp.name, 1)
+		c.Sample("rep_reads_unlike_model:"+rp.name, map[string]interface{}{"graph": cs.keyID(), "how": rp.how, "why": why})
+		if rp.filled {
+			// a struct filled directly by the harness does not read back as
+			// the graph (C05/C06): nothing can be judged on it, and that must not pass silently
 			c.Obs("rep_unusable:"+rp.name, 1)
-			if rp.name == "dense" || rp.name == "sparse" {
-				// a struct filled directly by the harness does not read back as
-				// the graph: nothing can be judged on it, and that must not pass silently
-				c.Inconclusive(fmt.Sprintf("the %s value of %s does not read back as the model (%s): its invariants were not judged", rp.name, cs.keyID(), why))
+			c.Inconclusive(fmt.Sprintf("the %s value of %s does not read back as the model (%s): its invariants were not judged", rp.name, cs.keyID(), why))
+			return
+		}
+		// a value built by the library's view constructors (or a variant of the
+		// struct contents that the library reads as the same graph) STANDS FOR the
+		// model by the documentation of its constructor: the invariants of the
+		// value are judged against the model of that graph; how the value reads
+		// goes into the detail
+		reads = why
+	} else if d := before.derived(g); d != "" {
+		// still judged: the invariants must not depend on the representation
+		c.Obs("rep_derived_observers_disagree_with_model:"+rp.name, 1)
+		c.Sample("rep_derived_observers_disagree_with_model:"+rp.name, map[string]interface{}{"graph": cs.keyID(), "how": rp.how, "what": d})
+	}
+	c.Obs("rep:"+rp.name, 1)
+	if n >= 4 && g.M() >= 2 {
+		c.NT(cs.keyID(), rp.name)
+	}
+	j := newJudge(c, cs, rp.name, rp.how, rp.V)
+	j.reads = reads
+	j.cliqueNumbers(rp.h)
+	if !opt.noCliques {
+		j.maximalCliques(rp.h, opt.rng)
+	}
+	if !opt.noChi {
+		j.chromaticNumber(rp.h)
+	}
+	switch {
+	case opt.fixedKs:
+		j.kColorable(rp.h, opt.ks)
+	case rp.further && !c.Thorough() && cs.ref.chi >= 0:
+		// the sweep over every k belongs to the five representations above;
+		// a further representation gets the k around chi in the quick tier
+		var ks []int
+		for k := cs.ref.chi - 1; k <= cs.ref.chi+1; k++ {
+			if k >= 0 {
+				ks = append(ks, k)
 			}
-			c.Sample("rep_unusable:"+rp.name, map[string]interface{}{"graph": cs.keyID(), "how": rp.how, "why": why})
-			continue
 		}
-		if d := before.derived(g); d != "" {
-			// still judged: the invariants must not depend on the representation
-			c.Obs("rep_derived_observers_disagree_with_model:"+rp.name, 1)
-			c.Sample("rep_derived_observers_disagree_with_model:"+rp.name, map[string]interface{}{"graph": cs.keyID(), "how": rp.how, "what": d})
-		}
-		c.Obs("rep:"+rp.name, 1)
-		if n >= 4 && g.M() >= 2 {
-			c.NT(cs.keyID(), rp.name)
-		}
-		j := newJudge(c, cs, rp.name, rp.how, rp.V)
-		j.cliqueNumbers(rp.h)
-		if !opt.noCliques {
-			j.maximalCliques(rp.h, opt.rng)
-		}
-		if !opt.noChi {
-			j.chromaticNumber(rp.h)
-		}
-		if opt.fixedKs {
-			j.kColorable(rp.h, opt.ks)
-		} else {
-			j.kColorable(rp.h, nil)
-		}
-		if opt.index {
-			j.chromaticIndex(rp.h)
-		}
-		j.degeneracy(rp.h)
+		j.kColorable(rp.h, ks)
+	default:
+		j.kColorable(rp.h, nil)
+	}
+	if opt.index {
+		j.chromaticIndex(rp.h)
+	}
+	j.degeneracy(rp.h)
+	if rp.further && !c.Thorough() && !opt.allOrders && len(orders) > 4 && len(opt.extraOrders) == 0 {
+		// identity, reversal, smallest-last and one seeded order
+		j.greedy(rp.h, orders[:4], orderNames[:4])
+	} else {
 		j.greedy(rp.h, orders, orderNames)
-		j.properColouringPredicate(rp.h, opt.rng)
-		if eg, isEd := rp.h.(graph.EditableGraph); isEd {
-			if (rp.name == "dense" && opt.polyDense) || (rp.name == "sparse" && opt.polySparse) {
-				j.polynomial(eg, rp.name)
-			}
+	}
+	j.properColouringPredicate(rp.h, opt.rng)
+	if eg, isEd := rp.h.(graph.EditableGraph); isEd {
+		switch {
+		case rp.name == "dense" && opt.polyDense, rp.name == "sparse" && opt.polySparse:
+			j.polynomial(eg, rp.name)
+		case rp.name != rp.poly && rp.poly == "dense" && opt.polyDense, rp.name != rp.poly && rp.poly == "sparse" && opt.polyDense && n <= 7:
+			j.polynomial(eg, rp.name)
 		}
-		// none of the functions may have changed the graph it was given
+	}
+	// none of the functions may have changed the graph it was given
+	if before != nil {
 		c.Eval(1)
 		after, why := observe(c, cs, rp)
 		if why == "" {
@@ -397,6 +455,14 @@ func runCase(c *engine.Ctx, cs *graphCase, opt runOpts) {
 		}
 		if why != "" {
 			j.violation("any", "argument-graph-changed", "", nil, "after the calls the "+rp.name+" graph reads differently: "+why, "the graph passed to the functions is unchanged")
+		}
+	}
+	if rp.user != nil {
+		// the caller's own lists, which Neighbours / Degrees hand out, are as they were
+		c.Eval(1)
+		c.Obs("user:stored_lists_compared_afterwards", 1)
+		if d := rp.user.Intact(g); d != "" {
+			j.violation("any", "argument-graph-changed", "stored-lists", nil, "after the calls the lists stored in the caller-implemented graph differ: "+d, "the graph passed to the functions is unchanged")
 		}
 	}
 }
